@@ -45,7 +45,8 @@ def c10_case(draw):
     return {"a": a, "detail": draw(st.sampled_from(["hash", "repr", "context", "all", "hash,repr,context"])),
             "others": others_l, "reuse": draw(st.booleans()), "mode": draw(st.sampled_from(["file", "file", "dir"])),
             "shared_orchestrator": draw(st.booleans()), "iterator": draw(st.integers(0, 5)) == 0,
-            "nonfinite": draw(st.sampled_from([None] * 7 + ["inf", "nan", "-inf"])), "fresh_process": draw(st.sampled_from([False] * 11 + [True]))}
+            "nonfinite": draw(st.sampled_from([None] * 7 + ["inf", "nan", "-inf"])),
+            "odd": draw(st.sampled_from([None] * 8 + observe.ODD_NAMES)), "fresh_process": draw(st.sampled_from([False] * 11 + [True]))}
 
 
 def _files() -> Dict[str, str]:
@@ -73,6 +74,23 @@ def _with_nonfinite(a: Dict[str, Any], which: str) -> Dict[str, Any]:
     return a
 
 
+def _with_odd(a: Dict[str, Any], name: str) -> Dict[str, Any]:
+    """A legal but unusual Python value (not JSON-representable as such) reaches a node as a context-resolved parameter."""
+    a = copy.deepcopy(a)
+    marker = {"$odd": name}
+    for n in a["nodes"]:
+        if n["p"] in ("VEchoProbe", "FloatMultiplyOperation", "FloatAddOperation", "FloatMultiplyOperationWithDefault", "VInPlaceScaleOp") and not n.get("sweep"):
+            pname = M.LIB[n["p"]]["params"][0][0]
+            (n.get("params") or {}).pop(pname, None)
+            a["ctx"][pname] = marker
+            return a
+    # no consumer: an echo probe is put in front of the first node that sees a float (or the value just sits in the context)
+    a["ctx"]["p"] = marker
+    if a["data"].get("t") == "FloatDataType":
+        a["nodes"].insert(0, {"p": "VEchoProbe", "context_key": "odd_echo", "params": {"q": 1.0}})
+    return a
+
+
 def _fresh_process_trace(a: Dict[str, Any], detail: str, workroot: str):
     import subprocess
     import sys
@@ -88,6 +106,8 @@ def check_case(case: Dict[str, Any], col: Collector, workroot: str = ".") -> Non
     a = {k: case["a"][k] for k in ("nodes", "ctx", "data")}
     if case.get("nonfinite"):
         a = _with_nonfinite(a, case["nonfinite"])
+    elif case.get("odd"):
+        a = _with_odd(a, case["odd"])
     detail = case.get("detail", "hash")
     _files()
     ref = observe.run_real(copy.deepcopy(a))
@@ -199,7 +219,7 @@ def _judge(case, a, m, ref, r1, r2, files_ref, files_1, files_2, col) -> None:
     labs = labels_of(a, m) + ["detail:" + case.get("detail", "hash"), "history:%d" % len(case.get("others", [])),
                               "reuse" if case.get("reuse") else "fresh", "mode:" + case.get("mode", "file"),
                               "shared_orchestrator" if case.get("shared_orchestrator") else "own_orchestrator"] + \
-        (["nonfinite_parameter"] if case.get("nonfinite") else [])
+        (["nonfinite_parameter"] if case.get("nonfinite") else ["odd_value", "odd:" + case["odd"]] if case.get("odd") else [])
     ctx_write = any(e.get("post") is not None and not observe.equal(e["pre"], e["post"]) for e in m["log"])
     nontriv = len(a["nodes"]) >= 2 and ctx_write and (bool(case.get("others")) or bool(case.get("reuse")))
     col.count(case, labs, nontriv)
@@ -285,4 +305,4 @@ def valid(case: Any) -> bool:
 
 
 def label_requirements(tier: str) -> Dict[str, Any]:
-    return {"fresh_process_baseline": 30, "nonfinite_parameter": 0.05, "shared_orchestrator": 0.2, "iterator_in_context": 20, "reuse": 0.2, "fresh": 0.3, "succeeds": 0.2, "fails": 0.2, "sweep": 0.05, "history:0": 0.04, "history:2": 0.06}
+    return {"odd_value": 0.1, "fresh_process_baseline": 30, "nonfinite_parameter": 0.05, "shared_orchestrator": 0.2, "iterator_in_context": 20, "reuse": 0.2, "fresh": 0.3, "succeeds": 0.2, "fails": 0.2, "sweep": 0.05, "history:0": 0.04, "history:2": 0.06}
